@@ -174,27 +174,31 @@ Fixpoint zs_of_sx (l : list sx) : option (list Z) :=
   | _ => None
   end.
 
-(** input L [L addrs; L env; L draws; dict]  ->  Configuration(addrs, dict) *)
-Definition run_load (x : sx) : sx :=
+(** The oracle answers are pure functions of the value, so the harness sends them once per batch. *)
+Definition genv_of (x : sx) : list entry :=
+  match x with SxL l => match entries_of_sx l with Some e => e | None => [] end | _ => [] end.
+
+(** input L [L addrs; L draws; dict]  ->  Configuration(addrs, dict) *)
+Definition run_load (entries : list entry) (x : sx) : sx :=
   match x with
-  | SxL [SxL a; SxL e; SxL dr; d] =>
-      match addrs_of_sx a, entries_of_sx e, zs_of_sx dr, pv_of_sx d with
-      | Some addrs, Some entries, Some draws, Some dict =>
+  | SxL [SxL a; SxL dr; d] =>
+      match addrs_of_sx a, zs_of_sx dr, pv_of_sx d with
+      | Some addrs, Some draws, Some dict =>
           sx_res sx_config (load (env_of entries draws) addrs dict)
-      | _, _, _, _ => bad_input
+      | _, _, _ => bad_input
       end
   | _ => bad_input
   end.
 
-(** input L [L addrs; L env; L draws; name; conn]  ->  Configuration._load_ike_conf(name, conn, addrs)
+(** input L [L addrs; L draws; name; conn]  ->  Configuration._load_ike_conf(name, conn, addrs)
     (the exception class before __init__ maps it) *)
-Definition run_ike_conf (x : sx) : sx :=
+Definition run_ike_conf (entries : list entry) (x : sx) : sx :=
   match x with
-  | SxL [SxL a; SxL e; SxL dr; n; d] =>
-      match addrs_of_sx a, entries_of_sx e, zs_of_sx dr, pv_of_sx n, pv_of_sx d with
-      | Some addrs, Some entries, Some draws, Some name, Some dict =>
+  | SxL [SxL a; SxL dr; n; d] =>
+      match addrs_of_sx a, zs_of_sx dr, pv_of_sx n, pv_of_sx d with
+      | Some addrs, Some draws, Some name, Some dict =>
           sx_res sx_ikeconf (load_ike_conf (env_of entries draws) addrs 0 name dict)
-      | _, _, _, _, _ => bad_input
+      | _, _, _, _ => bad_input
       end
   | _ => bad_input
   end.
